@@ -62,3 +62,21 @@ Definition intercept (p : provider) (r : request) : request :=
   | ApiKeyQuery n k => {| headers := headers r; query := (query r ++ [(n, k)])%list; cookies := cookies r |}
   | ApiKeyCookie n k => {| headers := headers r; query := query r; cookies := (cookies r ++ [(n, k)])%list |}
   end.
+
+(** * Who finds the published scopes.  The wrappers of chi, gorilla, std-http and gin run the per-operation middlewares
+      themselves, INSIDE the wrapper; an authenticating middleware reads the scopes from the request context.  A wrapper
+      is the order of three things in its text: the statement that publishes the scopes, the point where the middleware
+      chain is entered, and the call of the user's handler (innermost). *)
+Inductive wtok := KPublish | KChain | KHandler.
+(** the context as the observers find it: everything published before the observer is reached *)
+Fixpoint seen_by (who : wtok) (text : list wtok) (published_so_far : bool) : option bool :=
+  match text with
+  | [] => None
+  | t :: r => if match t, who with KChain, KChain | KHandler, KHandler => true | _, _ => false end then Some published_so_far
+              else seen_by who r (published_so_far || match t with KPublish => true | _ => false end)
+  end.
+Definition publishes_first (text : list wtok) : bool :=
+  match seen_by KChain text false, seen_by KHandler text false with
+  | Some true, Some true => true
+  | _, _ => false
+  end.
